@@ -38,8 +38,12 @@
 ; contracts of in / contains / like (quantified postconditions), named here so that Satisfy can refer to them
 ; comp: C_interfaceBB (Array Ref Val)
 (declare-fun regexMatch (Str Str) Bool)
-(declare-fun funcS (Val Doc) Bool)
-(declare-fun compareS (Val Doc) Bool)
+(declare-fun funcS (Func Doc) Bool)
+; ordering operators: the field (absent = nil) against the normalised operand
+(define-fun compareF ((op (_ BitVec 64)) (fv Val) (x Val)) Bool
+  (and (normalizable x)
+       (ite (= op OP_GT) (> (cmpS fv (normV x)) 0) (ite (= op OP_GTEQ) (>= (cmpS fv (normV x)) 0)
+       (ite (= op OP_LT) (< (cmpS fv (normV x)) 0) (<= (cmpS fv (normV x)) 0))))))
 ; Contains: the field is a non-nil array and every listed element compares equal to some array element
 (define-fun containsF ((cib (Array Ref Val)) (fname (Array Ref Str)) (list Val) (fv Val) (d Doc)) Bool
   (and (isSliceC fv) (not (= (sbase (lval fv)) null))
@@ -59,9 +63,9 @@
   (ite (= op OP_EQ) (and (normalizable (operandOf fname v d)) (dhas d f) (= (cmpS (dget d f) (normV (operandOf fname v d))) 0))
   (ite (= op OP_LIKE) (likeF v (dget d f))
   (ite (= op OP_IN) (inF cib fname v (dget d f) d)
-  (ite (or (= op OP_GT) (= op OP_GTEQ) (= op OP_LT) (= op OP_LTEQ)) (compareS c d)
+  (ite (or (= op OP_GT) (= op OP_GTEQ) (= op OP_LT) (= op OP_LTEQ)) (compareF op (dget d f) (operandOf fname v d))
   (ite (= op OP_CONTAINS) (containsF cib fname v (dget d f) d)
-  (ite (= op OP_FUNCTION) (funcS c d) false)))))))))
+  (ite (= op OP_FUNCTION) (funcS (nval v) d) false)))))))))
 ; statefun: sat!def F_query_BinaryCriteria_OpType F_query_BinaryCriteria_C1 F_query_BinaryCriteria_C2 F_query_NotCriteria_C F_query_UnaryCriteria_OpType F_query_UnaryCriteria_Field F_query_UnaryCriteria_Value F_query_field_name C_interfaceBB
 (define-fun sat!def ((bop (Array Ref (_ BitVec 64))) (bc1 (Array Ref Val)) (bc2 (Array Ref Val)) (nc (Array Ref Val))
                      (uop (Array Ref (_ BitVec 64))) (uf (Array Ref Str)) (uv (Array Ref Val)) (fname (Array Ref Str)) (cib (Array Ref Val)) (c Val) (d Doc)) Bool
@@ -74,3 +78,10 @@
 (define-fun containsS ((cib (Array Ref Val)) (fname (Array Ref Str)) (list Val) (fv Val) (d Doc)) Bool (containsF cib fname list fv d))
 ; statefun: inS C_interfaceBB F_query_field_name
 (define-fun inS ((cib (Array Ref Val)) (fname (Array Ref Str)) (list Val) (fv Val) (d Doc)) Bool (inF cib fname list fv d))
+; operand typing (what the builders produce): In/Contains carry a list, Like a string, MatchFunc a function
+; statefun: validUnary F_query_UnaryCriteria_OpType F_query_UnaryCriteria_Value
+(define-fun validUnary ((uop (Array Ref (_ BitVec 64))) (uv (Array Ref Val)) (c Ref)) Bool
+  (let ((op (select uop c)) (v (select uv c)))
+  (and (=> (or (= op OP_IN) (= op OP_CONTAINS)) (and ((_ is vslice) v) (= (lty v) TY_slice)))
+       (=> (= op OP_LIKE) (isStrC v))
+       (=> (= op OP_FUNCTION) (and ((_ is vfunc) v) (= (nty v) TY_matchfunc) (not (= (nval v) fnil)))))))
